@@ -1,7 +1,7 @@
 /* API harness of component `valid`, property C02 (validation accepts exactly the valid instances).  Public API only.
  *
  *   schema <dsl> <yang-hex>                    register the schema named by the DSL token        -> ok <n> <node-summary>*
- *   val <dsl> <xdsl> <opts> <dump>             build the instance through lyd_new_* in dump order (every node LYD_NEW), then
+ *   val | valx <dsl> <xdsl> <opts> <dump>      build the instance through lyd_new_* in dump order (every node LYD_NEW), then
  *                                              lyd_validate_module(opts) / lyd_validate_all(opts) when opts has PRESENT
  *                                                -> ok build <E>                    the instance cannot be built (bad value, missing key)
  *                                                -> ok valid <dump>                 the validated tree (implicit nodes, flags)
@@ -34,6 +34,7 @@ static const struct { const char *prefix, *kind; } KINDS[] = {
     {"Unique data leaf(s) \"", "NoUniq"},
     {"Must condition \"", "NoMust"},
     {"When condition \"", "NoWhen"},
+    {"Invalid leafref value \"", "NoReqInst"},
     {"List instance is missing its key \"", "NoKey"},
     {"Invalid type ", "BadValue"},
     {"Invalid boolean value \"", "BadValue"},
@@ -242,7 +243,7 @@ main(void)
         }
         if (r.ntok < 4 || !(s = tp_schema_get(r.tok[3]))) { vp_reply(id, "err NoSchema"); continue; }
 
-        if (!strcmp(op, "val") && r.ntok == 7) {
+        if ((!strcmp(op, "val") || !strcmp(op, "valx")) && r.ntok == 7) {      /* valx: same op; the model side also evaluates must / leafref / when */
             op_val(id, s, (uint32_t)atoi(r.tok[5]), r.tok[6]);
         } else if (!strcmp(op, "routes") && r.ntok == 8) {
             uint32_t opts = (uint32_t)atoi(r.tok[4]);
